@@ -21,8 +21,9 @@ META = dict(
                "on the real agdb and on the extracted model and comparing every result.",
     design_ref="DESIGN.md §5 C16",
     level_note="Trusted: Coq kernel, extraction (ExtrOcamlBasic), OCaml driver, Rust harness/generators. Theorems are about the model (theories/Search.v), "
-               "whose integers are unbounded: the code computes limit + offset in u64 (LimitOffsetHandler::new), so the transfer to the code holds for "
-               "limit + offset < 2^64 (see the final report for the overflow input). The tie to the code is differential execution: a search result "
+               "whose integers are unbounded: the code computes limit.saturating_add(offset) in u64 (LimitOffsetHandler::new; unchecked before "
+               "fix: ea4fd27 — found with this property), C16_limit_offset_no_wrap shows the saturated sum gives the same handler results below 2^64-2 "
+               "selected elements. The tie to the code is differential execution: a search result "
                "that differs from the model's is reported as a violation, since the model is proved to meet the property.",
 )
 
@@ -38,12 +39,12 @@ def run(ctx):
     return dict(
         evaluations=r["cases"], distinct_nontrivial=r["nontrivial"], samples=r["samples"], dist=r["dist"],
         rule="%d generated query histories (profile %s, <= %d steps: graphs with properties, then searches BFS/DFS/reverse/path/elements with "
-             "limit and offset from 0 to beyond the result length, 0..3 order keys with mixed presence / kinds / directions, conditions); each query runs "
+             "limit and offset from 0 to beyond the result length and, in 1 of 12 searches, at the u64 boundary (2^63, 2^64-2, 2^64-1), 0..3 order keys with mixed presence / kinds / directions, conditions); each query runs "
              "under catch_unwind (a panic is reported as such); every query result and a full dump every 8 steps compared line by line with the "
              "extracted Coq model, which is proved to slice and sort as the property demands; non-trivial = history that reached a state with >= 2 nodes "
              "and an edge or a rolled-back multi-query transaction" % (r["histories"], PROFILE, steps),
         failures=failures, disagreements=r["disagreements"],
-        assumptions=["limit + offset < 2^64 (the model's integers are unbounded)",
+        assumptions=["fewer than 2^64 - 2 elements are selected by one search (the model's integers are unbounded, the code saturates limit + offset)",
                      "the unlimited search terminates within the model's fuel (C19)",
                      "insert lists have distinct keys (the generator's own quantifier)"],
     )
